@@ -65,6 +65,7 @@ class LockModel:
         self.summary = {}          # body id -> {cls: (loc, via_body_id or None, mode)}
         self.states = {}           # body id -> {'may': {bb: state_in}, 'must': {...}}
         self.edges = {}            # (h, a) -> witness dict (first found)
+        self.upgrade_edges = []
         self.edge_all = defaultdict(list)
         self.yield_viol = []
         self.handoff = []
@@ -481,6 +482,15 @@ class LockModel:
                 if c.callee and c.is_(*BLOCKING_HANDOFF):
                     for cls, (mode, loc, asy, l) in held.items():
                         self.handoff.append((b, bb, cls, mode, loc, c.callee))
+                if c.callee and c.is_('RwLockUpgradableReadGuard::upgrade', 're:RwLockUpgradableReadGuard<.*>::upgrade$'):
+                    # upgrading waits until every plain reader of the SAME lock has left: a blocking exclusive acquisition of that class while everything
+                    # else stays held (a reader of it that waits for one of those other locks closes a cycle, although the nominal order is unchanged)
+                    up = [st[l][0] for l in moved_in if l in st]
+                    for u_cls in up:
+                        for cls, (mode, loc, asy, l) in held.items():
+                            if cls != u_cls and l not in moved_in:
+                                self._add_edge(cls, u_cls, mode, 'W', b, loc, c.loc, None)
+                                self.upgrade_edges.append((b.short, cls, u_cls, c.loc))
                 for cb in per_bb.get(bb, []):
                     for a_cls, w in self.summary.get(cb.id, {}).items():
                         for cls, (mode, loc, asy, l) in held.items():
